@@ -107,19 +107,19 @@ func c08configs(tier string) []c08cfg {
 }
 
 type c08event struct {
-	task      int
-	kind      string
-	id        int
-	ok        bool
+	task       int
+	kind       string
+	id         int
+	ok         bool
 	start, end int
 }
 
 type c08run struct {
-	cfg     *c08cfg
-	events  []c08event
+	cfg      *c08cfg
+	events   []c08event
 	panicked string
-	avail   int
-	heldEnd int
+	avail    int
+	heldEnd  int
 }
 
 // c08execute runs one schedule of cfg on a fresh generator.
